@@ -425,8 +425,8 @@ impl StrCompat for bumpalo::collections::String<'static> {
 }
 
 /// (group, |a|, |b|)
-const FW_GROUPS: [(u8, u8, u8); 8] = [(0, 5, 5), (1, 6, 6), (2, 6, 6), (3, 5, 5), (4, 14, 1), (5, 6, 6), (6, 4, 1), (7, 3, 1)];
-const FW_NAMES: [&str; 8] = ["u64 pair: compare/hash/format", "f64 pair: partial compare/format", "str pair: compare/hash/format", "[u8] pair: compare/hash/format", "Hasher write_* forwarding", "Iterator method pairs", "Borrow/AsRef/AsMut/Deref/Pointer", "Future polling"];
+const FW_GROUPS: [(u8, u8, u8); 9] = [(0, 5, 5), (1, 6, 6), (2, 6, 6), (3, 5, 5), (4, 14, 1), (5, 6, 6), (6, 4, 1), (7, 3, 1), (8, 2, 1)];
+const FW_NAMES: [&str; 9] = ["u64 pair: compare/hash/format", "f64 pair: partial compare/format", "str pair: compare/hash/format", "[u8] pair: compare/hash/format", "Hasher write_* forwarding", "Iterator method pairs", "Borrow/AsRef/AsMut/Deref/Pointer", "Future polling", "Default for Box<[T]> / Box<str>"];
 const FW_U64: [u64; 5] = [0, 5, 7, 255, u64::MAX];
 const FW_F64: [f64; 6] = [f64::NAN, -0.0, 0.0, 1.5, -2.25, f64::INFINITY];
 const FW_STR: [&str; 6] = ["", "a", "ab", "b", "é€", "a\n\"q"];
@@ -529,7 +529,7 @@ macro_rules! hash_fwd {
 
 /// One forwarding case in one world. `$mk` boxes a sized value, `$mks`/`$mkb` box a str / byte slice.
 macro_rules! forwarding {
-    ($out:expr, $g:expr, $a:expr, $b:expr, mk = $mk:expr, mk_str = $mks:expr, mk_bytes = $mkb:expr, dynhash = $dh:expr, dynfut = $df:expr) => {{
+    ($out:expr, $g:expr, $a:expr, $b:expr, bx = $bx:ident, mk = $mk:expr, mk_str = $mks:expr, mk_bytes = $mkb:expr, dynhash = $dh:expr, dynfut = $df:expr) => {{
         let out: &mut Vec<String> = $out;
         let (ai, bi) = ($a as usize, $b as usize);
         match $g {
@@ -622,6 +622,18 @@ macro_rules! forwarding {
                 let p = format!("{:p}", x);
                 out.push(format!("borrow{} {} as_ref{} {} after{} pointer_is_value_address{} pfmt{}", b1v, b1a, r1v, r1a, *x, p == format!("{:p}", addr as *const u64), format!("{:18p}", x).len()));
             }
+            8 => {
+                let _g = Callback::enter();
+                if ai == 0 {
+                    let d: $bx!([D]) = Default::default();
+                    let e: $bx!([u64]) = Default::default();
+                    out.push(format!("len{} {} {:?} aligned{}", d.len(), e.len(), e, (e.as_ptr() as usize) % std::mem::align_of::<u64>() == 0));
+                    drop(d);
+                } else {
+                    let d: $bx!(str) = Default::default();
+                    out.push(format!("str{:?} len{} eq{}", d, d.len(), &*d == ""));
+                }
+            }
             _ => {
                 let wk = noop_waker();
                 let mut cx = Context::from_waker(&wk);
@@ -644,7 +656,7 @@ fn run_forwarding(envp: *mut ExecEnv, g: u8, a: u8, b: u16, v: &mut Vec<Violatio
     let r0 = {
         let o = &mut o0;
         arena_op(envp, 1, 0, &[], || {
-            forwarding!(o, g, a, b, mk = |x| BBox::new_in(x, bref),
+            forwarding!(o, g, a, b, bx = BBoxT, mk = |x| BBox::new_in(x, bref),
                 mk_str = |s: &str| -> BBox<'static, str> { let r: &'static mut str = bumpalo::collections::String::from_str_in(s, bref).into_bump_str_mut_compat(); unsafe { BBox::from_raw(r as *mut str) } },
                 mk_bytes = |s: &[u8]| -> BBox<'static, [u8]> { BBox::from_iter_in(s.iter().copied(), bref) },
                 dynhash = |h: RecHasher| -> BBox<'static, dyn Hasher> { let x = BBox::new_in(h, bref); unsafe { BBox::from_raw(BBox::into_raw(x) as *mut dyn Hasher) } },
@@ -655,7 +667,7 @@ fn run_forwarding(envp: *mut ExecEnv, g: u8, a: u8, b: u16, v: &mut Vec<Violatio
         let o = &mut o1;
         let _g = Callback::enter();
         crate::util::quiet(|| catch_unwind(AssertUnwindSafe(|| {
-            forwarding!(o, g, a, b, mk = |x| Box::new(x),
+            forwarding!(o, g, a, b, bx = StdBoxT, mk = |x| Box::new(x),
                 mk_str = |s: &str| -> Box<str> { String::from(s).into_boxed_str() },
                 mk_bytes = |s: &[u8]| -> Box<[u8]> { s.to_vec().into_boxed_slice() },
                 dynhash = |h: RecHasher| -> Box<dyn Hasher> { Box::new(h) },
